@@ -35,6 +35,6 @@ def get_class_counts_and_indices(dataset):
     classes = np.array([dataset.getitem_class(i) for i in range(len(dataset))])
     counts, _ = get_class_counts(classes=classes, n_classes=dataset.getdim_class())
     indices = []
-    for i in range(dataset.getdim_class()):
+    for i in range(len(counts)):
         indices.append((classes == i).nonzero()[0])
     return counts, indices
